@@ -221,6 +221,14 @@ def run(rep):
     um = dsc.methods['update_methods']
     ok = any(isinstance(c, ast.Call) and norm(c.func) == 'self.allowed_methods.update' for c in walk_body(um.node))
     rep.check('R06.d', fkey(um), ok, 'update_methods unions into allowed_methods' if ok else 'update_methods does not union', app, um.node)
+    # the dispatch state only ever unions into containers of its own (never adopts a route's method set / list)
+    from .noninterf import RequestPath
+    for ci, m_, field, st_, fresh in RequestPath(repo).field_freshness():
+        if ci is dsc:
+            rep.check('R06.d', '%s::%s::self.%s = %s' % (APP, m_.qualname, field, norm(st_.value)[:50]), fresh,
+                      'DispatchState.%s is its own freshly allocated container' % field if fresh else
+                      'DispatchState.%s adopts %s and then mutates it in place: recording allowed methods / errors for one request rewrites '
+                      'the routes\' own data for all later requests' % (field, short(st_.value)), app, st_)
     dsi = dsc.methods['__init__']
     asg = dict((norm(s.targets[0]), norm(s.value)) for s in stmts_of(dsi.node) if isinstance(s, ast.Assign))
     ok = asg.get('self.exceptions') == '[]' and asg.get('self.allowed_methods') == 'set()'
